@@ -97,5 +97,6 @@ R3z == -1..1
 AllToks == Int \X {0, 1}
 ZeroOnly == {<<0, 0>>}
 ZeroOne == {<<0, 0>>, <<1, 0>>}
+ZeroBoth == {<<0, 0>>, <<0, 1>>}        \* construction value +0.0 or -0.0
 SelOnly(s) == {s}
 =============================================================================
